@@ -78,7 +78,6 @@ def reviewed : List Row := [
   ⟨"paths", "volumeNameLen", "index", "path[n]", .code "loop condition n < l"⟩,
   ⟨"transform", "Canonical", "assert", "canonical.(map[string]any)", .code "transform of a mapping at the root (no transformer matches the empty path) is transformMapping: the mapping"⟩,
   ⟨"transform", "SetDefaultValues", "assert", "result.(map[string]any)", .code "setDefaults of a mapping at the root returns the mapping"⟩,
-  ⟨"transform", "transformKeyValue", "assert", "e.(string)", .code "only for services.*.build.additional_contexts, after EnforceUnicity, whose keyValueIndexer (same pattern) rejects every non-string item with \"unexpected type\""⟩,
   ⟨"types", "HealthCheckTest.DecodeMapstructure", "index", "seq[i]", .code "seq := make([]string, len(v)); i ranges over v"⟩,
   ⟨"types", "HostsList.DecodeMapstructure", "index", "hosts[j]", .code "hosts := make([]string, len(t)); j ranges over t"⟩,
   ⟨"types", "HostsList.DecodeMapstructure", "index", "s[i]", .code "s := make([]string, len(v)); i ranges over v"⟩,
